@@ -201,6 +201,26 @@ var concJobs = []job{
 	{"v2", 'T', "AC:L/AV:N/Au:N/C:P/I:P/A:C"},
 }
 
+// an invalid value code for every optional metric (the miss path of every code lookup runs concurrently with the hits)
+func init() {
+	b3 := "CVSS:3.1/AV:N/AC:L/PR:N/UI:N/S:U/C:H/I:H/A:H"
+	for _, n := range []string{"E", "RL", "RC"} {
+		concJobs = append(concJobs, job{"v3", 'T', b3 + "/" + n + ":Q"}, job{"v3", 'E', b3 + "/" + n + ":Q/MAV:A"})
+	}
+	for _, n := range []string{"CR", "IR", "AR", "MAV", "MAC", "MPR", "MUI", "MS", "MC", "MI", "MA"} {
+		concJobs = append(concJobs, job{"v3", 'E', b3 + "/E:F/" + n + ":Q"})
+	}
+	b2 := "AV:N/AC:L/Au:N/C:P/I:P/A:C"
+	for _, t := range []string{"/E:Q/RL:OF/RC:C", "/E:F/RL:Q/RC:C", "/E:F/RL:OF/RC:Q"} {
+		concJobs = append(concJobs, job{"v2", 'T', b2 + t})
+	}
+	for _, t := range []string{"/CDP:Q/TD:H/CR:M/IR:M/AR:H", "/CDP:H/TD:Q/CR:M/IR:M/AR:H", "/CDP:H/TD:H/CR:Q/IR:M/AR:H", "/CDP:H/TD:H/CR:M/IR:Q/AR:H", "/CDP:H/TD:H/CR:M/IR:M/AR:Q"} {
+		concJobs = append(concJobs, job{"v2", 'E', b2 + t})
+	}
+	// and a valid vector that carries every Modified metric, to be decoded while those fail
+	concJobs = append(concJobs, job{"v3", 'E', "CVSS:3.1/AV:N/AC:L/PR:N/UI:N/S:U/C:H/I:H/A:H/E:F/RL:W/RC:R/CR:M/IR:H/AR:L/MAV:A/MAC:H/MPR:L/MUI:R/MS:C/MC:L/MI:H/MA:N"})
+}
+
 // conc-replay: every schedule x seeded pairs of jobs, gated through the decodeOne hook
 func cmdConcReplay(args []string) {
 	fs := flag.NewFlagSet("conc-replay", flag.ExitOnError)
